@@ -1236,10 +1236,10 @@ class VM:
             return obj.get(key_str)
 
         if isinstance(obj, JSTypedArray):
-            # Typed array index access
+            # Typed array index access (canonical index strings only: no "01", "+1", "-0")
             try:
                 idx = int(key_str)
-                if idx >= 0:
+                if idx >= 0 and str(idx) == key_str:
                     return obj.get_index(idx)
             except ValueError:
                 pass
@@ -1261,10 +1261,10 @@ class VM:
             return obj.get(key_str)
 
         if isinstance(obj, JSArray):
-            # Array index access
+            # Array index access (canonical index strings only: no "01", "+1", "-0")
             try:
                 idx = int(key_str)
-                if idx >= 0:
+                if idx >= 0 and str(idx) == key_str:
                     return obj.get_index(idx)
             except ValueError:
                 pass
@@ -2748,7 +2748,7 @@ class VM:
                 idx = int(key_str)
             except ValueError:
                 idx = -1
-            if idx >= 0:
+            if idx >= 0 and str(idx) == key_str:
                 # The stored number is ToNumber(value): objects are converted
                 # through their valueOf / toString
                 if isinstance(value, JSObject):
